@@ -82,6 +82,12 @@ func allocOpts(kind string, B int) resourcetypes.Resources {
 		bind, cpu, mem = true, 1.5, 1
 	case "b20":
 		bind, cpu, mem = true, 2.0, 0
+	case "b115": // hundredths of a core whose product with the share base is not exact in floating point (1.15 * 100 = 114.99...)
+		bind, cpu, mem = true, 1.15, 1
+	case "b057":
+		bind, cpu, mem = true, 0.57, 1
+	case "b229":
+		bind, cpu, mem = true, 2.29, 1
 	case "u05":
 		bind, cpu, mem = false, 0.5, 1
 	case "u00":
@@ -390,6 +396,8 @@ func histNode(kind string) nodeSt {
 		return nodeSt{B: 2, MS: -1, Cap: []int{2, 2, 2, 2, 2, 2}, Used: []int{0, 0, 0, 0, 0, 0}, Numa: []int{1, 1, 1, 2, 2, 2}, Mem: 10, NumaMem: []int64{5, 5}, NumaMemUsed: []int64{0, 0}}
 	case "share3": // node added with share 4 = two full shares per core
 		return nodeSt{B: 2, MS: 2, Cap: []int{4, 4, 4}, Used: []int{0, 0, 0}, Numa: []int{0, 0, 0}, Mem: 6, NumaMem: []int64{}, NumaMemUsed: []int64{}}
+	case "cent4": // share base 100: a core is sold in hundredths
+		return nodeSt{B: 100, MS: -1, Cap: []int{100, 100, 100, 100}, Used: []int{0, 0, 0, 0}, Numa: []int{1, 1, 2, 2}, Mem: 8, NumaMem: []int64{4, 4}, NumaMemUsed: []int64{0, 0}}
 	case "plain2":
 		return nodeSt{B: 2, MS: -1, Cap: []int{2, 2}, Used: []int{0, 0}, Numa: []int{0, 0}, Mem: 3, NumaMem: []int64{}, NumaMemUsed: []int64{}}
 	}
